@@ -262,6 +262,9 @@ enum What {
     PartialHold { entry: usize, v6: bool, ms: u64, retries: usize },
     /// (the master answers `pages` pages without a terminator and is silent from then on)
     Master { v6: bool, ms: u64, pages: usize },
+    /// GameSpy 2 server that answers with a stream of replies to ANOTHER request id (one every 100 ms, 30 of them) and then
+    /// falls silent: whatever the client makes of them, the call is bounded by its timeouts, not by the stream
+    Gs2Stray { v6: bool, ms: u64 },
     Eco { v6: bool, ms: u64, hold: bool, variant: u8 },
     Echo { tcp: bool, v6: bool },
 }
@@ -334,6 +337,7 @@ fn build(tier: Tier) -> Vec<Case> {
                 v.push(Case { label: format!("eco (http) {} accept-then-hold, read timeout {ms} ms, other timeouts variant {variant}", if v6 { "::1" } else { "127.0.0.1" }), what: What::Eco { v6, ms: *ms, hold: true, variant } });
             }
         }
+        v.push(Case { label: format!("gamespy2 {} server streaming replies to another request id, timeout 150 ms", if v6 { "::1" } else { "127.0.0.1" }), what: What::Gs2Stray { v6, ms: 150 } });
         for pages in [0usize, 1, 2] {
             v.push(Case { label: format!("master server {} silent after {pages} pages (built-in default timeout)", if v6 { "::1" } else { "127.0.0.1" }), what: What::Master { v6, ms: 4000, pages } });
         }
@@ -396,7 +400,7 @@ impl Prop for C12 {
          data), unreal2 (trailing receives), quake3, bedrock, java (TCP), legacy 1.6 (TCP)} x silence point {before the first \
          reply, after each reply, never} + {TCP connection refused / UDP port closed} x {127.0.0.1, ::1} x read/write/connect \
          timeout {150 ms (quick); 150, 400 ms (thorough)} x retries {0, 1 (quick); 0, 1, 2}; plus the same settings deserialised from their JSON form; plus, for TCP, half a reply followed by silence on an open connection; eco over HTTP (accept-then-hold, \
-         refused) and the master server (silent from the start, after one page, after two pages). The loopback servers are driven by the same reference models. Oracle: a server silent before the exchange is complete means a PacketReceive error (reference; inside Unreal 2's lists the twin's outcome); the number of receive timeouts of the deterministic twin run is at most the reference count N; the \
+         refused), a GameSpy 2 server streaming 30 replies to another request id, and the master server (silent from the start, after one page, after two pages). The loopback servers are driven by the same reference models. Oracle: a server silent before the exchange is complete means a PacketReceive error (reference; inside Unreal 2's lists the twin's outcome); the number of receive timeouts of the deterministic twin run is at most the reference count N; the \
          outcome class equals the outcome of the deterministic twin run under the virtual network with the same silence point \
          ; the call returns within N x timeout + 1.5 s, where N is read off the FAULT-FREE exchange (its natural timeouts + one that may end a greedy list + retries + 1 for the unit that meets the silence), not off the implementation's behaviour under the fault; over UDP the server must receive no more than (requests before the silence + retries x requests an attempt sends before its first receive) datagrams (hard watchdog at \
          4x: 'never times out'); every datagram the server received equals a request the twin run sent. Data path: UdpSocket / \
@@ -601,6 +605,57 @@ impl Prop for C12 {
                 match verdict {
                     None => ctx.sample(serde_json::json!({"case": case.label})),
                     Some((k2, d)) => ctx.violation(format!("real-socket:{k2}:tcp"), &[], format!("{}: {d}", case.label), d.clone(), "a receive-class error within (retries + 1) x timeout", vec![]),
+                }
+            }
+            What::Gs2Stray { v6, ms } => {
+                let ip = loop_ip(v6);
+                let Ok(sock) = StdUdp::bind((ip, 0)) else { return };
+                let port = sock.local_addr().unwrap().port();
+                let stop = Arc::new(AtomicBool::new(false));
+                let s2 = stop.clone();
+                let reply = {
+                    use crate::vnet::Responder as _;
+                    let mut d = crate::rsm::gamespy::Gs2Server { state: gs2_seed() }.on_datagram(&ConnInfo { id: 0, tcp: false, addr: SocketAddr::new(ip, port), sent: vec![], receives: 0, eof: false }, crate::rsm::gamespy::GS2_REQUEST).remove(0);
+                    d[4] = 0x02;
+                    d
+                };
+                let h = std::thread::spawn(move || {
+                    let _ = sock.set_read_timeout(Some(Duration::from_millis(20)));
+                    let mut buf = [0u8; 2048];
+                    while !s2.load(Ordering::SeqCst) {
+                        if let Ok((_, from)) = sock.recv_from(&mut buf) {
+                            for _ in 0 .. 30 {
+                                if s2.load(Ordering::SeqCst) {
+                                    break;
+                                }
+                                let _ = sock.send_to(&reply, from);
+                                std::thread::sleep(Duration::from_millis(100));
+                            }
+                        }
+                    }
+                });
+                let bound = Duration::from_millis(ms) + SLACK;
+                let t = ts(ms, 0);
+                let r = with_watchdog(bound * 4, move || j(gamedig::protocols::gamespy::two::query(&SocketAddr::new(ip, port), t)));
+                stop.store(true, Ordering::SeqCst);
+                let _ = h.join();
+                ctx.counters.transitions += 1;
+                let verdict = match r {
+                    None => Some(("never-times-out".to_string(), format!("no return within {:?}", bound * 4))),
+                    Some((res, elapsed)) => {
+                        if res.is_ok() {
+                            Some(("stray-replies-accepted".to_string(), "Ok(..) although no reply to the request arrived".to_string()))
+                        } else if elapsed > bound {
+                            Some(("too-slow".to_string(), format!("took {elapsed:?}, bound {bound:?} (one attempt of {ms} ms + slack)")))
+                        } else {
+                            None
+                        }
+                    }
+                };
+                ctx.distinct_key(&(case.label.clone(), verdict.clone()));
+                match verdict {
+                    None => ctx.sample(serde_json::json!({"case": case.label})),
+                    Some((k2, d)) => ctx.violation(format!("real-socket:{k2}:udp"), &[], format!("{}: {d}", case.label), d.clone(), "an error within one read timeout (+ slack)", vec![]),
                 }
             }
             What::Master { v6, ms, pages } => {
